@@ -4,6 +4,7 @@ import Mathlib.Data.List.Nodup
 import Mathlib.Data.List.Perm.Subperm
 import Mathlib.Data.Nat.ModEq
 import Mathlib.Data.Multiset.Basic
+import Mathlib.Algebra.Order.Ring.Int
 /-!
 GNAT queries, second half: the two collectors (`collK` = `insertNeighborK` and the
 `nbh.top().first` bound, `collR` = `insertNeighborR` and the fixed radius) satisfy `GoodColl`, the
@@ -326,5 +327,41 @@ theorem nearestRInternal_exact {dist : α → α → D} (hm : IsMetric dist)
   exact ⟨hex, isRNearest_of_goodR _ r _ disc _ hg heq, fun x hx => (hg.2.1 x hx).1⟩
 
 end Final
+
+/-! ### the state invariant of the whole structure, and sample data for the non-vacuity examples -/
+
+section Sample
+variable [LE D] [DecidableLE D]
+
+/-- the state invariant of the whole structure: `GnatInv` on the tree, and `size_` is the number of
+non-removed stored copies. -/
+def Gnat.WF (dist : α → α → D) (g : Gnat α D) : Prop :=
+  match g.tree with
+  | none => g.size = 0
+  | some t => t.inv dist g.removed = true ∧ g.size = (liveOf g.removed t.elems).length
+
+end Sample
+
+def l1 (a b : Int × Int) : Int := |a.1 - b.1| + |a.2 - b.2|
+
+theorem l1_metric : IsMetric l1 ∧ ∀ a, l1 a a = 0 := by
+  refine ⟨⟨fun a b => ?_, fun a b c => ?_⟩, fun a => by simp [l1]⟩
+  · simp only [l1]; rw [abs_sub_comm a.1, abs_sub_comm a.2]
+  · simp only [l1]
+    have h1 := abs_sub_le a.1 b.1 c.1
+    have h2 := abs_sub_le a.2 b.2 c.2
+    omega
+
+def sampleTree : Node (Int × Int) Int :=
+  .mk ⟨0, (1, 2)⟩ 3 none [none, none, none] []
+    [ .mk ⟨1, (9, 9)⟩ 2 (some (0, 0)) [some (0, 0), some (16, 18), some (7, 11)] [] [],
+      .mk ⟨2, (0, 0)⟩ 2 (some (0, 2)) [some (18, 18), some (0, 2), some (7, 11)] [⟨3, (1, 1)⟩] [],
+      .mk ⟨4, (3, 4)⟩ 2 (some (0, 4)) [some (11, 11), some (5, 7), some (0, 4)] [⟨5, (5, 6)⟩, ⟨6, (3, 4)⟩] [] ]
+
+def sampleGnat : Gnat (Int × Int) Int :=
+  { params := ⟨3, 2, 3, 2, 3, false⟩, tree := some sampleTree, size := 6, removed := [6], nextId := 7 }
+
+theorem sampleGnat_wf : sampleGnat.WF l1 := ⟨by decide, by decide⟩
+
 
 end OmplModel.NN
